@@ -569,6 +569,7 @@ impl Spec {
             busy_low: self.busy_low,
             busy_held_after_pof: self.busy_held_after_pof,
             vendor_uc_sleep: self.name == "epd3in7",
+            pof_pulse_floor: if self.name == "epd5in65f" { 1 } else { 0 },
         }
     }
     pub fn row_bytes(&self) -> u32 {
